@@ -20,6 +20,7 @@ Tag(S) == {<<c, l>> : c \in S}
 DiscIdx == {i \in DOMAIN dvs : dvs[i].disc}
 SameDisc(x, y) == Len(x) = Len(y) /\ \A i \in DiscIdx : i \in DOMAIN x => x[i] = y[i]
 RowInRange(x, act) == Len(x) = Len(dvs) /\ Len(act) = Len(dvs) /\ \A i \in DOMAIN dvs : (dvs[i].disc \/ ~act[i]) => InRangeVar(dvs[i], x[i])
+HasLinkedDv == \E k \in DOMAIN G.cons : G.cons[k].dv # <<>>
 HasCont == \E i \in DOMAIN dvs : ~dvs[i].disc
 
 \* admissible architectures of the whole description = selection level x connection feasibility
@@ -37,7 +38,8 @@ Init == /\ tid \in DOMAIN Traces
 CoverageClauses ==
     IF ~alive \/ ~spaceok THEN {}
     ELSE (IF \A A \in adm : A \in reached THEN {}
-          ELSE {IF enc = "fast" THEN "C14.admissible_architecture_unreachable" ELSE "C04.admissible_architecture_unreachable"})
+          ELSE {IF enc = "fast" THEN "C14.admissible_architecture_unreachable" ELSE "C04.admissible_architecture_unreachable"}
+               \cup (IF CcIds(G) # {} THEN {"C11.scenario_lost"} ELSE {}))
 
 NewStep(e) ==
     /\ fails' = fails \cup Tag(CoverageClauses
@@ -91,6 +93,7 @@ EnumStep(e) ==
                  \cup (IF \A i \in DOMAIN e.rows : Len(e.rows[i].act) # Len(dvs) \/ Len(e.rows[i].x) # Len(dvs) \/ Canonical(dvs, e.rows[i].x, e.rows[i].act) THEN {} ELSE {"C07.inactive_not_canonical"})
                  \cup (IF \A i, j \in DOMAIN e.rows : i # j => ~(SameDisc(e.rows[i].x, e.rows[j].x) /\ e.rows[i].act = e.rows[j].act) THEN {} ELSE {"C04.duplicate_row"})
                  \cup (IF e.n_valid = -1 \/ e.n_valid = Len(e.rows) THEN {} ELSE {"C04.count_differs_from_rows"})
+                 \cup (IF e.n_valid = -1 \/ HasLinkedDv \/ e.n_valid = RefCount(G, adm) THEN {} ELSE {"C04.count_differs_from_reference_enumeration"})
                  \cup (IF \A i \in DOMAIN e.rows : \A o \in outs : (~HasCont /\ o[1] = e.rows[i].x) => o[2] = e.rows[i].act THEN {} ELSE {"C07.activeness_path_dependent"})
                  \* every corrected vector the decodes produced must be a listed row and vice versa (when the space was complete)
                  \cup (IF \A o \in outs : \E i \in DOMAIN e.rows : SameDisc(e.rows[i].x, o[1]) /\ e.rows[i].act = o[2] THEN {} ELSE {"C04.decoded_vector_not_listed"})
